@@ -533,6 +533,10 @@ func (e *Exec) enterLoop(fr *Frame, li *loopInfo, pre *State) *State {
 		e.assume(st, c.And(facts...))
 		// whatever the local refers to was allocated before this point
 		e.assume(st, e.oldRefs(st, t, av.P.cell.typ))
+		if a.Comment == "rangeindex" {
+			// the hidden index of a range loop starts at -1 and only grows
+			e.assume(st, c.Ge(t, c.Int(-1)))
+		}
 	}
 	li.phiFresh = map[*ssa.Phi]*Term{}
 	for _, ins := range li.head.Instrs {
@@ -1377,7 +1381,9 @@ func (e *Exec) sliceInstr(fr *Frame, st *State, x *ssa.Slice) {
 			e.fail("slicing a by-value local array (escape analysis gap) in %s", fr.fn)
 		}
 		if !memArrayT(u.Elem()) && !isStructT(at.Elem()) {
-			e.fail("slicing an array of aggregates")
+			// array of arrays: as a slice its elements are read from the slice memory of the inner array type,
+			// which writes through element pointers do not reach - the elements are unconstrained (over-approximation)
+			e.note("slice of an array of arrays: element values unconstrained")
 		}
 		fr.vals[x] = Val{T: e.tm.MkSlice(xv.T, lo, c.Sub(hi, lo), c.Sub(mx, lo))}
 	default:
